@@ -177,6 +177,92 @@ CHECKS = {
         design_ref="DESIGN.md section 4 (C08), section 10",
         note="Records are compared as independently parsed text fields.",
     ),
+    "C06": dict(
+        engine="tlc-aligncore",
+        technique="TLC model checking of the discrete placement lemma (MC_Planted over AlignCore.tla) + TLC batch "
+                  "validation (Trace_Planted) of what the real pipeline reports for planted queries; the FFT seeding "
+                  "is observed, not modelled",
+        text="TLC proves on small lattices that an exact copy whose seed lies within maxD of the true diagonal (spacing "
+             "> 2 maxD) is aligned to exactly the true pairs on both strands; the property itself is decided on "
+             "planted inputs in the quantifier's domain (single reference, spacing >= 2 kb, mean >= 9 kb, windows of "
+             "15-45 interior labels, both strands, offsets and trailing lengths, decimals) run through the real "
+             "pipeline with default parameters in every output mode, TLC checking reference, strand, exact pairs, "
+             "offsets <= 200 bp and HitEnum nM.",
+        design_ref="DESIGN.md section 4 (C06), section 6, section 10",
+        note="The cross-correlation / peak finding is numerical: for that half the evidence is sampled inputs "
+             "(exploration), stated in the evidence file; only the lemma is exhaustive.",
+    ),
+    "C09": dict(
+        engine="tlc-pool",
+        technique="TLC model checking of Pool.tla (all interleavings of Take/Finish/Yield, both ways the per-process "
+                  "counter travels) + TLC-enumerated completion orders steering the real pathos pool + byte comparison "
+                  "of CLI runs with -c 1..16, judged by TLC (Trace_Pool)",
+        text="TLC explores every schedule of the ordered parallel map for 4 tasks x 3 workers (5 x 4 thorough) and "
+             "shows that what reaches the files is schedule independent while the source tags are not (named "
+             "deviation); TLC enumerates the feasible completion orders for 6 tasks / 3 workers and a harness "
+             "Extension sleeping inside the workers steers the real pool into them; the unmodified CLI runs with "
+             "several -c values and repetitions; TLC compares all digests and checks the recorded executions against "
+             "the Pool model.",
+        design_ref="DESIGN.md section 4 (C09), section 10",
+        note="Header lines echoing arguments, host and absolute paths are excluded from the byte comparison.",
+    ),
+    "C10": dict(
+        engine="tlc-pool",
+        technique="TLC model checking of Pool.tla (Inv_C10: any subset / order of tasks with a shared aligner counter) "
+                  "+ variant runs of the real pipeline compared record by record by TLC (Trace_SameFiles)",
+        text="The model lets any subset of tasks run in any order with the shared counter and checks that a task's "
+             "yielded record is a function of the task; end to end, each input is run in full, with queries removed "
+             "and reordered, with CMAP rows shuffled, with references reordered, with -qId/-rId and on physically "
+             "restricted files, and TLC compares every record field (XmapEntryID renumbered only where the query "
+             "set differs).",
+        design_ref="DESIGN.md section 4 (C10), section 10",
+        note="Assumes no exact score ties between references (random references).",
+    ),
+    "C11": dict(
+        engine="tlc-aligncore",
+        technique="TLC model checking of a two-run invariant over AlignCore.tla (MC_Mirror) + TLC batch validation "
+                  "(Trace_Mirror) of first-pass records of queries and their mirror images on lattice CMAP sets",
+        text="TLC runs the composed Aligner.align model on a query and on its mirror image (other strand, same seeds) "
+             "for every small lattice input and checks that the rows are mirror images; with the pinned reverse-"
+             "strand join score it produces an on-lattice counter-example. End to end, lattice CMAP sets (step 1400 "
+             "bp = lcm of both resolutions, maxPairDistance < step/2) contain every query together with its mirror "
+             "image and TLC compares the two 'separate'-mode records.",
+        design_ref="DESIGN.md section 4 (C11), section 10",
+        note="Default resolutions; the symmetry of binning relies on lattice coordinates as the property states.",
+    ),
+    "C17": dict(
+        engine="tlc-cmap",
+        technique="TLC model checking of Cmap.tla (row-level reader, every row order and filter) + TLC batch validation "
+                  "of the real CmapReader on harness-rendered CMAP text and of OpticalMap.trim",
+        text="TLC exhausts small files (<=2 molecules, 0-2 labels, all row permutations, all filters) against the C17 "
+             "clauses; the same row lists and random larger ones are rendered as CMAP text (decimals, shuffled, extra "
+             "columns) and read by the real reader; TLC checks ids, exact ascending coordinates, truncated length, "
+             "filter semantics, and trim (first label 0, count, distances, length, idempotence).",
+        design_ref="DESIGN.md section 4 (C17), section 10",
+        note="pandas' text parsing is covered by conformance only.",
+    ),
+    "C19": dict(
+        engine="tlc-compare",
+        technique="TLC model checking of Compare.tla (dict construction, combination of query sources, counts) + TLC "
+                  "batch validation of the real AlignmentComparer on (A,B), (B,A), (A,A)",
+        text="TLC exhausts pairs of small alignment sets (duplicate keys, empty / duplicated-query pair lists, both "
+             "flags) against the counting, swap and self-comparison clauses; the same sets and random larger ones go "
+             "through the real comparer in three arrangements and TLC checks the partition of keys, ranges, "
+             "reflexivity and swap symmetry, and compares rows with the model.",
+        design_ref="DESIGN.md section 4 (C19), section 10",
+        note="The identity ratio (difflib) is observed, not modelled.",
+    ),
+    "C20": dict(
+        engine="tlc-indels",
+        technique="TLC model checking of Indels.tla (clustering loop, D9 deviation shown) + TLC batch validation of "
+                  "the real cluster_indels / write_indel_file / both look_for_indels_in_breakage",
+        text="TLC exhausts sorted lists of <=4 calls on two chromosomes against the conservation clauses; the same "
+             "lists (scaled to the real blur) and random ones go through the real cluster_indels and write_indel_file "
+             "(file parsed independently); synthetic alignments with one break point go through both finders and TLC "
+             "checks Length and type of every emitted call.",
+        design_ref="DESIGN.md section 4 (C20), section 10",
+        note="The averaged Length of merged clusters is not part of the property.",
+    ),
 }
 
 NOT_YET = "check not built yet in this round; planned per DESIGN.md section 4 (no technique switch)"
@@ -219,7 +305,7 @@ def main():
              "kind_free_text": "TLA+ spec (MC_/Export_/Trace_ configs) checked with TLC; harness/props/c12.py"},
             {"name": "tlc-chainer", "path": "spec/Chainer.tla", "serves_properties": ["C14"],
              "kind_free_text": "TLA+ spec (MC_/Export_/Trace_ configs) checked with TLC; harness/props/c14.py"},
-            {"name": "tlc-aligncore", "path": "spec/AlignCore.tla", "serves_properties": ["C01", "C04"],
+            {"name": "tlc-aligncore", "path": "spec/AlignCore.tla", "serves_properties": ["C01", "C04", "C06", "C11"],
              "kind_free_text": "composition of the component specs; MC_AlignCore, Trace_AlignCore; harness/props/c01.py, c04.py"},
             {"name": "tlc-resolver", "path": "spec/Resolver.tla", "serves_properties": ["C15"],
              "kind_free_text": "Trace_Resolver; harness/props/c15.py"},
@@ -229,6 +315,14 @@ def main():
              "kind_free_text": "MC_Vectorise, Trace_Vectorise; harness/props/c16.py"},
             {"name": "tlc-pipeline", "path": "spec/Pipeline.tla", "serves_properties": ["C05", "C07", "C08"],
              "kind_free_text": "Pipeline.tla, Worker.tla, MC_Pipeline, MC_Worker, Trace_Pipeline, Trace_SameFiles; harness/props/c05.py, c07.py, c08.py"},
+            {"name": "tlc-pool", "path": "spec/Pool.tla", "serves_properties": ["C09", "C10"],
+             "kind_free_text": "MC_Pool, Export_Pool (schedules), Trace_Pool, Trace_SameFiles; harness/props/c09.py, c10.py"},
+            {"name": "tlc-cmap", "path": "spec/Cmap.tla", "serves_properties": ["C17"],
+             "kind_free_text": "MC_Cmap, Trace_Cmap; harness/props/c17.py"},
+            {"name": "tlc-compare", "path": "spec/Compare.tla", "serves_properties": ["C19"],
+             "kind_free_text": "MC_Compare, Trace_Compare; harness/props/c19.py"},
+            {"name": "tlc-indels", "path": "spec/Indels.tla", "serves_properties": ["C20"],
+             "kind_free_text": "MC_Indels, Trace_Indels; harness/props/c20.py"},
             {"name": "tlc-row", "path": "spec/Row.tla", "serves_properties": ["C03"],
              "kind_free_text": "TLA+ spec (MC_/Export_/Trace_ configs) checked with TLC; harness/props/c03.py"},
         ],
